@@ -184,6 +184,26 @@ def main():
         cases = [{'limit': L, 'concurrent': n, 'encrypted': enc, 'seed': seed}
                  for L in ((4096, 40000) if tier == 'thorough' else (4096,)) for n in (1, 2, 3) for enc in ((False, True) if tier == 'thorough' else (False,))]
     failures, samples = [], []
+    # the limit itself: every documented spelling of a rate means the number of BYTES per second it says (SI and binary
+    # prefixes in either case, B = bytes, b = bits), recomputed with exact fractions
+    from fractions import Fraction
+    n_units = 0
+    for value in ('1', '7', '2.5', '.5', '10.', '1000', '0.001') if not only else ():
+        for prefix, mult in (('', 1), ('k', 1000), ('K', 1000), ('Ki', 1024), ('ki', 1024), ('M', 1000 ** 2), ('m', 1000 ** 2), ('Mi', 1024 ** 2),
+                             ('mi', 1024 ** 2), ('G', 1000 ** 3), ('g', 1000 ** 3), ('Gi', 1024 ** 3), ('gi', 1024 ** 3)):
+            for unit, um in (('', Fraction(1)), ('B', Fraction(1)), ('b', Fraction(1, 8))):
+                for space in ('', ' '):
+                    text = f'{value}{space}{prefix}{unit}'
+                    if value.endswith('.'):
+                        continue          # '10.' is not a documented spelling
+                    want = int(Fraction(value if not value.startswith('.') else '0' + value) * mult * um)
+                    n_units += 1
+                    try:
+                        got = utils.human_to_bytes(text)
+                    except Exception as e:
+                        got = f'{type(e).__name__}'
+                    if got != want:
+                        failures.append({'id': f'rate_{text}', 'class': None, 'case': {'rate_text': text}, 'detail': {'parsed': got, 'means': want}})
     for i, case in enumerate(cases):
         with lib.scratch('vf_c20e_') as root:
             try:
@@ -194,7 +214,7 @@ def main():
         if probs:
             failures.append({'id': f'e2e{i}', 'class': None, 'case': case, 'detail': probs[:4]})
         samples.append(case)
-    lib.emit({'status': 'ok', 'cases': len(cases) * 4, 'distinct': len(cases) * 4, 'failures': failures[:10], 'samples': samples[:3],
+    lib.emit({'status': 'ok', 'cases': len(cases) * 4 + n_units, 'distinct': len(cases) * 4 + n_units, 'failures': failures[:10], 'samples': samples[:3],
               'exhaustive': False, 'reproduced': bool(failures),
               'note': 'virtual clock: exact for concurrency 1, an over-estimate of elapsed time (weaker check) for concurrency > 1'})
     sys.stdout.flush()
